@@ -148,8 +148,15 @@ class HistGen(object):
             return ['bulk_write', [self.request() for _ in range(r.choice([1, 2, 3, 4, 5]))],
                     r.random() < 0.5]
         if k == 'bulk_builder':
-            return ['bulk_builder', [self.request() for _ in range(r.choice([0, 1, 2, 3, 4]))],
-                    r.random() < 0.5, r.choice([1, 2, 2, 3])]
+            reqs = [self.request() for _ in range(r.choice([0, 1, 2, 3, 4]))]
+            # several requests through ONE selector (the runner re-uses the find() handle, so
+            # that a request's settings - upsert - must not leak to its neighbours)
+            for j in range(1, len(reqs)):
+                if reqs[j][0] != 'InsertOne' and r.random() < 0.5:
+                    prev = [q for q in reqs[:j] if q[0] != 'InsertOne']
+                    if prev:
+                        reqs[j][1] = copy.deepcopy(r.choice(prev)[1])
+            return ['bulk_builder', reqs, r.random() < 0.5, r.choice([1, 2, 2, 3])]
         if k == 'create_index':
             return self.create_index()
         if k == 'drop_index':
@@ -398,12 +405,17 @@ class PyRunner(object):
         execute() `times` times; the outcome of every execute"""
         c = self.coll
         b = c.initialize_ordered_bulk_op() if ordered else c.initialize_unordered_bulk_op()
+        handles = {}
         for q in reqs:
             k, a = q[0], q[1:]
             if k == 'InsertOne':
                 b.insert(a[0])
                 continue
-            op = b.find(a[0])
+            # one find() handle per distinct selector, re-used by the later requests on it
+            hk = repr(a[0])
+            if hk not in handles:
+                handles[hk] = b.find(a[0])
+            op = handles[hk]
             if k in ('UpdateOne', 'UpdateMany', 'ReplaceOne') and a[2]:
                 op = op.upsert()
             if k == 'UpdateOne':
